@@ -65,6 +65,11 @@ Theorem C07_denied_request_does_not_establish : forall s, gcomm_step s (YInS1F13
 Proof. intro s. cbn [gcomm_step]. destruct (is s communication_WAIT_CRA); [reflexivity|]. destruct (is s communication_COMMUNICATING); reflexivity. Qed.
 Print Assumptions C07_denied_request_does_not_establish.
 
+(* ... and neither does a request whose S1F14 cannot be sent (the write is refused: the link is just going down) - no exchange was completed (D63) *)
+Theorem C07_unanswerable_request_does_not_establish : forall s, gcomm_step s YInS1F13Unanswerable = (s, []).
+Proof. intro s. reflexivity. Qed.
+Print Assumptions C07_unanswerable_request_does_not_establish.
+
 Example C07_example :
   snd (gcomm_run gc0 [YEnable; YLinkUp; YT3; YInOther true true; YDelay; YInS1F14 1 true; YDelay; YInS1F14 0 true; YInOther true true; YLinkDown; YLinkUp; YInS1F13 true]) =
   [[]; [YSendS1F13]; []; []; [YSendS1F13]; []; [YSendS1F13]; []; [YHandled]; []; [YSendS1F13]; [YSendS1F14 0]].
